@@ -320,10 +320,66 @@ func ruleShape(r string) string {
 	return "other"
 }
 
+// envCache is the process-wide struct-type cache of this harness: a real LRU behind a wrapper that can answer Load
+// with a miss although the entry is present - the answer a caller legitimately gets when another goroutine evicted or
+// has not yet stored the entry (the CacheEr contract). With missEvery == 0 it is a plain pass-through.
+type envCache struct {
+	inner     valid.CacheEr
+	missEvery int
+	n         int
+}
+
+func (e *envCache) Load(k interface{}) (interface{}, bool) {
+	e.n++
+	if e.missEvery > 0 && e.n%e.missEvery == 0 {
+		return nil, false
+	}
+	return e.inner.Load(k)
+}
+func (e *envCache) Store(k, v interface{}) { e.inner.Store(k, v) }
+
 func run(c *runner.Ctx) {
+	env := &envCache{inner: valid.NewLRU()}
+	valid.SetStructTypeCache(env)
 	// (1) values x entry points
 	c.Space("values")
 	ents := entries()
+	// (1b) the same, with the environment answering cache loads with a miss (every load / every 2nd / every 3rd) on a
+	// small LRU: the type is analysed and stored again although it is cached, entries are evicted continuously
+	for _, me := range []int{1, 2, 3} {
+		c.Space(fmt.Sprintf("values/cache-load-misses-every-%d", me))
+		env.missEvery = me
+		for _, sh := range catalogue() {
+			for _, e := range ents {
+				if !strings.Contains(e.name, "truct") {
+					continue
+				}
+				if !c.Take() {
+					continue
+				}
+				// self-contained history per case: fresh LRU(1), the call three times with two other types in between
+				env.inner, env.n = valid.NewLRU(1), 0
+				pan, msg, site := runner.Guard(func() {
+					_ = e.f(sh.v)
+					_ = e.f(sh.v)
+					_ = valid.Struct(&Box{"x"})
+					_ = e.f(sh.v)
+					_ = valid.Struct(&BoxI{1})
+					_ = valid.Struct(&Box{"x"})
+					_ = e.f(sh.v)
+				})
+				c.Done(true, 7)
+				if pan {
+					c.Outcome("panic")
+					c.Violation(fmt.Sprintf("panic@%s/%s/cache-load-miss", site, e.name), map[string]interface{}{"entry": e.name, "value": sh.name, "panic": msg, "cache": fmt.Sprintf("LRU(1), load misses every %d; history: call, call, Struct(Box), call, Struct(BoxI), Struct(Box), call", me)})
+				} else {
+					c.Outcome("returned")
+				}
+			}
+		}
+	}
+	env.inner, env.missEvery = valid.NewLRU(), 0
+	c.Space("values")
 	for _, sh := range catalogue() {
 		for _, e := range ents {
 			if !c.Take() {
@@ -423,7 +479,7 @@ func main() {
 		Property:  "C13",
 		Technique: "bounded-exhaustive enumeration: value-shape catalogue x entry points; rule-text token sequences, all single-byte edits of 40 seed rules, all byte strings <=2; oracle = the call returns normally",
 		Rule: "(1) ~165 value shapes (nil, typed nil pointers, multi-level pointers, scalars, collections of structs/pointers with nil positions, non-string-keyed maps, interface-typed fields and elements, func/chan, nested collections, defined types over every accepted kind - named string/int/float/bool, named maps and slices, maps keyed by a named string; " +
-			"also as fields under required/exist) x 20 entry points; (2) every sequence of <=n tokens over 34 rule names + 14 syntax tokens, every single-byte substitution (256 values), insertion and deletion of 40 seed rules, every byte string of length<=2, " +
+			"also as fields under required/exist) x 20 entry points, the struct entry points additionally with the struct-type cache (LRU(1) behind a wrapper, a 7-call history per case) answering every / every 2nd / every 3rd Load with a miss; (2) every sequence of <=n tokens over 34 rule names + 14 syntax tokens, every single-byte substitution (256 values), insertion and deletion of 40 seed rules, every byte string of length<=2, " +
 			"argument strings <=4 over 10 syntax symbols for table-indexed rules; each through 16 callers (Var/Struct/Map/Url on string,int,float,slice values + splitter/parser/extractor); transitions = calls; non-trivial = value-shape cases",
 		Assumptions: []string{"excluded by the statement: cyclic graphs, panicking user callbacks, re-use of a consumed validator object; an unhashable key of NestedStructForRule's rule map is a Go-level misuse of that argument"},
 		Run:         run,
